@@ -114,7 +114,13 @@ def cli_pairs(ctx, n):
                 # a short fragment of a command NAME (no indexed token, too weak a typo match against the long
                 # descriptions): only the recovery search's whole-query substring strategy answers it
                 q = rnd.choice(["kub", "kube", "skaf", "kaff", "kubea", "kubec", "ube", "bectl"])
+            if k % 7 == 3:
+                # a recovery-only query that opens with words the engine drops as filler ("how to ...", "the ..."): the first-word
+                # strategy of the recovery search answers it from the filler word itself ("how" is part of "show")
+                q = rnd.choice(["how to", "how", "the", "what is the", "show me how to"]) + " " + rnd.choice(["qzxj", "jqxz", "zzqj"])
             v = "".join(c.upper() if rnd.random() < 0.5 else c for c in q)
+            if k % 7 == 3 and rnd.random() < 0.5:
+                v = q.title()
             if ("k" in v or "K" in v) and rnd.random() < (0.85 if k % 5 == 4 else 0.5):
                 # U+212A KELVIN SIGN lower-cases to 'k' (and is three bytes long: length-preserving fold compares miss it)
                 v = re.sub("[kK]", "\u212a", v, count=1)
@@ -125,7 +131,7 @@ def cli_pairs(ctx, n):
             ctx.cov["evaluations"] += 1
             if a:
                 ctx.distinct.add("cli:" + q + "|" + v)
-                ctx.add_distribution({("cli.recovery-substring-answered" if k % 5 == 4 else "cli.recovery-answered") if (k % 2 or k % 5 == 4) else "cli.engine-answered": 1})
+                ctx.add_distribution({"cli.recovery-filler-led-answered" if k % 7 == 3 else ("cli.recovery-substring-answered" if k % 5 == 4 else "cli.recovery-answered") if (k % 2 or k % 5 == 4) else "cli.engine-answered": 1})
             if a != b:
                 bad += 1
                 ctx.hit("cli-case-or-whitespace-changes-output", "wtf %r -> %s but %r -> %s" % (q, a, v, b),
